@@ -208,13 +208,11 @@ Definition upto (k : nat) : list N := map N.of_nat (seq 0 k).
 Lemma in_upto k v : v < N.of_nat k -> In v (upto k).
 Proof. intro H. apply in_map_iff. exists (N.to_nat v). split; [lia | apply in_seq; lia]. Qed.
 
-Definition byte_ok (fr to : nat) (fl : nat) (nx : N) (x : N) : bool :=
-  st_eqb (cb_byte (N.of_nat fr) (N.of_nat to) (mk_cb [] nx (N.of_nat fl)) (b8 x))
-         (to_cb (pushes to (bitsN fl nx, []) (bitsN fr x))).
-
 Definition table_ok (fr to : nat) : bool :=
-  forallb (fun fl => forallb (fun nx => forallb (fun x => byte_ok fr to fl nx x) (upto (2 ^ fr)))
-                             (upto (2 ^ fl))) (seq 0 to).
+  forallb (fun fl => forallb (fun nx => forallb (fun x =>
+      st_eqb (cb_byte (N.of_nat fr) (N.of_nat to) (mk_cb [] nx (N.of_nat fl)) (b8 x))
+             (to_cb (pushes to (bitsN fl nx, []) (bitsN fr x))))
+    (upto (2 ^ fr))) (upto (2 ^ fl))) (seq 0 to).
 
 Lemma enc_table : table_ok 8 5 = true. Proof. vm_compute. reflexivity. Qed.
 Lemma dec_table : table_ok 5 8 = true. Proof. vm_compute. reflexivity. Qed.
@@ -226,14 +224,16 @@ Proof.
 Qed.
 
 Lemma table_lookup fr to : table_ok fr to = true ->
-  forall fl nx x, (fl < to)%nat -> nx < 2 ^ N.of_nat fl -> x < 2 ^ N.of_nat fr -> byte_ok fr to fl nx x = true.
+  forall fl nx x, (fl < to)%nat -> nx < 2 ^ N.of_nat fl -> x < 2 ^ N.of_nat fr ->
+  cb_byte (N.of_nat fr) (N.of_nat to) (mk_cb [] nx (N.of_nat fl)) (b8 x) =
+  to_cb (pushes to (bitsN fl nx, []) (bitsN fr x)).
 Proof.
   intros T fl nx x Hfl Hnx Hx. unfold table_ok in T. rewrite forallb_forall in T.
   assert (I0 : In fl (seq 0 to)) by (apply in_seq; lia).
   pose proof (T fl I0) as T1. rewrite forallb_forall in T1.
   assert (I1 : In nx (upto (2 ^ fl))) by (apply in_upto; rewrite pow2_nat; exact Hnx).
   pose proof (T1 nx I1) as T2. rewrite forallb_forall in T2.
-  apply T2. apply in_upto. rewrite pow2_nat. exact Hx.
+  apply st_eqb_eq. apply T2. apply in_upto. rewrite pow2_nat. exact Hx.
 Qed.
 
 Lemma byte_step0 fr to : table_ok fr to = true ->
@@ -243,7 +243,7 @@ Lemma byte_step0 fr to : table_ok fr to = true ->
 Proof.
   intros T acc x La Hx.
   pose proof (table_lookup fr to T (length acc) (val acc) (n8 x) La (val_bound acc) Hx) as Q.
-  unfold byte_ok in Q. apply st_eqb_eq in Q. rewrite b8_n8, bitsN_val in Q. exact Q.
+  rewrite b8_n8, bitsN_val in Q. exact Q.
 Qed.
 
 Lemma to_cb_out (P0 : sst) (out : bytes) :
@@ -259,15 +259,210 @@ Proof.
   rewrite to_cb_out. f_equal. symmetry. exact (pushes_out to (bitsN fr (n8 x)) acc [] out).
 Qed.
 
+Lemma bits_of_cons w x d : bits_of w (x :: d) = bitsN w (n8 x) ++ bits_of w d.
+Proof. reflexivity. Qed.
+
+Lemma bits_of_nil w : bits_of w [] = []. Proof. reflexivity. Qed.
+Lemma pushes_nil to st : pushes to st [] = st. Proof. reflexivity. Qed.
+Lemma fold_left_cons {A B} (f : A -> B -> A) x l a : fold_left f (x :: l) a = fold_left f l (f a x).
+Proof. reflexivity. Qed.
+Lemma fold_left_nil {A B} (f : A -> B -> A) a : fold_left f [] a = a.
+Proof. reflexivity. Qed.
+
 Lemma fold_bytes fr to : table_ok fr to = true -> (fr <= 8)%nat ->
   forall data acc out, (length acc < to)%nat -> Forall (fun x => n8 x < 2 ^ N.of_nat fr) data ->
   fold_left (cb_byte (N.of_nat fr) (N.of_nat to)) data (to_cb (acc, out)) =
   to_cb (pushes to (acc, out) (bits_of fr data)).
 Proof.
-  intros T F8. induction data as [|x data IH]; intros acc out La F; cbn [fold_left]; [reflexivity|].
-  inversion F as [|x' d' Hx F']; subst.
-  rewrite (byte_step fr to T F8 acc out x La Hx).
-  unfold bits_of. cbn [map concat]. fold (bits_of fr data). rewrite pushes_app.
-  pose proof (pushes_len to (bitsN fr (n8 x)) acc out La) as Q.
-  destruct (pushes to (acc, out) (bitsN fr (n8 x))) as [a1 o1]. cbn [fst] in Q. apply IH; assumption.
+  intros T F8. induction data as [|x data IH]; intros acc out La F.
+  - rewrite bits_of_nil, pushes_nil, fold_left_nil. reflexivity.
+  - pose proof (Forall_inv F) as Hx. pose proof (Forall_inv_tail F) as F'.
+    rewrite bits_of_cons, pushes_app, fold_left_cons.
+    rewrite (byte_step fr to T F8 acc out x La Hx).
+    pose proof (pushes_len to (bitsN fr (n8 x)) acc out La) as Q.
+    destruct (pushes to (acc, out) (bitsN fr (n8 x))) as [a1 o1]. apply IH; assumption.
+Qed.
+
+(* ------------------------------------------------------------------ *)
+(* ConvertBits 8 -> 5 (padded) and 5 -> 8 (unpadded) through the spec   *)
+(* ------------------------------------------------------------------ *)
+Definition small5 (l : bytes) : Prop := Forall (fun b => n8 b < 32) l.
+
+Lemma cb85_unfold data : convert_bits data 8 5 true =
+  let st := fold_left (cb_byte 8 5) data (mk_cb [] 0 0) in
+  let st' := if 0 <? cb_filled st
+             then mk_cb (b8 (u8 (N.shiftl (cb_next st) (5 - cb_filled st))) :: cb_out st) 0 0 else st in
+  if (0 <? cb_filled st') && ((4 <? cb_filled st') || negb (cb_next st' =? 0)) then None
+  else Some (rev (cb_out st')).
+Proof. reflexivity. Qed.
+
+Lemma cb58_unfold c : convert_bits c 5 8 false =
+  let st := fold_left (cb_byte 5 8) c (mk_cb [] 0 0) in
+  if (0 <? cb_filled st) && ((4 <? cb_filled st) || negb (cb_next st =? 0)) then None
+  else Some (rev (cb_out st)).
+Proof. reflexivity. Qed.
+
+Lemma any_byte_small8 data : Forall (fun x => n8 x < 2 ^ N.of_nat 8) data.
+Proof. apply Forall_forall. intros x _. change (2 ^ N.of_nat 8) with 256. apply n8_lt. Qed.
+
+Lemma fold85 data : fold_left (cb_byte 8 5) data (mk_cb [] 0 0) = to_cb (pushes 5 ([], []) (bits_of 8 data)).
+Proof.
+  change (mk_cb [] 0 0) with (to_cb ([], [])). change 8 with (N.of_nat 8) at 1. change 5 with (N.of_nat 5) at 1.
+  apply (fold_bytes 8 5 enc_table); [lia | cbn; lia | apply any_byte_small8].
+Qed.
+
+Lemma fold58 c : small5 c -> fold_left (cb_byte 5 8) c (mk_cb [] 0 0) = to_cb (pushes 8 ([], []) (bits_of 5 c)).
+Proof.
+  intro S. change (mk_cb [] 0 0) with (to_cb ([], [])). change 5 with (N.of_nat 5) at 1. change 8 with (N.of_nat 8) at 1.
+  apply (fold_bytes 5 8 dec_table); [lia | cbn; lia | exact S].
+Qed.
+
+(* the padding symbol *)
+Definition enc_tail (acc : list bool) : bytes :=
+  match acc with [] => [] | _ => [b8 (val (acc ++ repeat false (5 - length acc)))] end.
+
+Lemma pad_value (a : list bool) : (0 < length a < 5)%nat ->
+  u8 (N.shiftl (val a) (5 - N.of_nat (length a))) = val (a ++ repeat false (5 - length a)).
+Proof.
+  intro H. rewrite N.shiftl_mul_pow2, val_app_zeros.
+  replace (N.of_nat (5 - length a)) with (5 - N.of_nat (length a)) by lia.
+  unfold u8. apply N.mod_small.
+  pose proof (val_bound (a ++ repeat false (5 - length a))) as B.
+  rewrite app_length, repeat_length in B. replace (length a + (5 - length a))%nat with 5%nat in B by lia.
+  rewrite val_app_zeros in B. replace (N.of_nat (5 - length a)) with (5 - N.of_nat (length a)) in B by lia.
+  change (2 ^ N.of_nat 5) with 32 in B. lia.
+Qed.
+
+Lemma conv85 data :
+  let P := pushes 5 ([], []) (bits_of 8 data) in
+  convert_bits data 8 5 true = Some (rev (snd P) ++ enc_tail (fst P)).
+Proof.
+  cbv zeta. rewrite cb85_unfold. cbv zeta. rewrite fold85.
+  pose proof (pushes_len 5 (bits_of 8 data) [] [] ltac:(cbn; lia)) as L.
+  destruct (pushes 5 ([], []) (bits_of 8 data)) as [acc out] eqn:E.
+  unfold sst, bytes in *. try rewrite E in L. cbn [fst snd] in *.
+  unfold to_cb. cbn [fst snd cb_out cb_next cb_filled].
+  destruct acc as [|b acc].
+  - cbn [length enc_tail]. change (0 <? N.of_nat 0) with false. cbv iota. cbn [cb_filled cb_next cb_out].
+    change (0 <? N.of_nat 0) with false. cbn [andb]. rewrite app_nil_r. reflexivity.
+  - assert (Hp : 0 <? N.of_nat (length (b :: acc)) = true) by (apply N.ltb_lt; cbn [length]; lia).
+    rewrite Hp. cbn [cb_filled cb_next cb_out]. change (0 <? 0) with false. cbn [andb rev enc_tail].
+    rewrite pad_value by (cbn [length] in *; lia). reflexivity.
+Qed.
+
+Lemma conv58 c : small5 c ->
+  let P := pushes 8 ([], []) (bits_of 5 c) in
+  convert_bits c 5 8 false =
+  if (0 <? N.of_nat (length (fst P))) && ((4 <? N.of_nat (length (fst P))) || negb (val (fst P) =? 0))
+  then None else Some (rev (snd P)).
+Proof. intro S. cbv zeta. rewrite cb58_unfold. cbv zeta. rewrite (fold58 c S). reflexivity. Qed.
+
+(* ------------------------------------------------------------------ *)
+(* bits of the regrouped output                                        *)
+(* ------------------------------------------------------------------ *)
+Lemma bits_of_length w : forall l, length (bits_of w l) = (w * length l)%nat.
+Proof.
+  induction l as [|x l IH]; [rewrite bits_of_nil; cbn; lia|].
+  rewrite bits_of_cons, app_length, bitsN_length, IH. cbn [length]. lia.
+Qed.
+
+Lemma app_eq_len {A} : forall (a b c d : list A), length a = length b -> a ++ c = b ++ d -> a = b /\ c = d.
+Proof.
+  induction a as [|x a IH]; intros [|y b] c d L E; cbn in L; try discriminate; cbn [app] in E.
+  - split; [reflexivity | exact E].
+  - inversion E as [[E1 E2]]. destruct (IH b c d ltac:(congruence) E2) as [-> ->]. split; reflexivity.
+Qed.
+
+Lemma bits_of_inj w : (0 < w)%nat -> forall a b,
+  Forall (fun x => n8 x < 2 ^ N.of_nat w) a -> Forall (fun x => n8 x < 2 ^ N.of_nat w) b ->
+  bits_of w a = bits_of w b -> a = b.
+Proof.
+  intro W. induction a as [|x a IH]; intros [|y b] Fa Fb E.
+  - reflexivity.
+  - apply (f_equal (@length bool)) in E. rewrite bits_of_nil, bits_of_length in E. cbn [length] in E. lia.
+  - apply (f_equal (@length bool)) in E. rewrite bits_of_nil, bits_of_length in E. cbn [length] in E. lia.
+  - rewrite !bits_of_cons in E.
+    apply app_eq_len in E as [E1 E2]; [|rewrite !bitsN_length; reflexivity].
+    apply (f_equal val) in E1. rewrite !val_bitsN in E1.
+    pose proof (Forall_inv Fa) as Hx. pose proof (Forall_inv Fb) as Hy. cbv beta in Hx, Hy.
+    rewrite !N.mod_small in E1 by assumption. apply n8_inj in E1. subst y.
+    f_equal. apply IH; [exact (Forall_inv_tail Fa) | exact (Forall_inv_tail Fb) | exact E2].
+Qed.
+
+Lemma pushes8_bytes : forall d out, pushes 8 ([], out) (bits_of 8 d) = ([], rev d ++ out).
+Proof.
+  induction d as [|x d IH]; intro out.
+  - rewrite bits_of_nil, pushes_nil. reflexivity.
+  - rewrite bits_of_cons, pushes_app, pushes_group by (try apply bitsN_length; lia).
+    rewrite val_bitsN. change (2 ^ N.of_nat 8) with 256.
+    rewrite N.mod_small by apply n8_lt. rewrite b8_n8, IH. cbn [rev]. rewrite <- app_assoc. reflexivity.
+Qed.
+
+(* the bits of what 8 -> 5 produces: the input bits followed by fewer than five zero bits *)
+Lemma enc_bits data : exists c p, convert_bits data 8 5 true = Some c /\ small5 c /\
+  bits_of 5 c = bits_of 8 data ++ repeat false p /\ (p < 5)%nat.
+Proof.
+  pose proof (conv85 data) as C. cbv zeta in C.
+  pose proof (pushes_flat 5 ltac:(lia) (bits_of 8 data) [] [] ltac:(cbn; lia)) as Fl.
+  pose proof (pushes_len 5 (bits_of 8 data) [] [] ltac:(cbn; lia)) as L.
+  pose proof (pushes_small_out 5 ltac:(lia) (bits_of 8 data) [] [] ltac:(constructor)) as So.
+  destruct (pushes 5 ([], []) (bits_of 8 data)) as [acc out] eqn:E.
+  unfold sst, bytes in *. try rewrite E in Fl. try rewrite E in L. try rewrite E in So.
+  unfold flat in Fl. cbn [fst snd rev app] in *. rewrite bits_of_nil in Fl. cbn [app] in Fl.
+  change (2 ^ N.of_nat 5) with 32 in So.
+  exists (rev out ++ enc_tail acc), (match acc with [] => O | _ => 5 - length acc end)%nat.
+  split; [exact C|]. destruct acc as [|b acc].
+  - cbn [enc_tail]. rewrite !app_nil_r in *. split; [|split; [exact Fl | lia]].
+    apply Forall_rev. exact So.
+  - cbn [enc_tail]. set (a := b :: acc) in *. split; [|split].
+    + apply Forall_app. split; [apply Forall_rev; exact So|]. constructor; [|constructor].
+      rewrite n8_b8. pose proof (val_bound (a ++ repeat false (5 - length a))) as B.
+      rewrite app_length, repeat_length in B. replace (length a + (5 - length a))%nat with 5%nat in B by lia.
+      change (2 ^ N.of_nat 5) with 32 in B. rewrite N.mod_small by lia. exact B.
+    + rewrite bits_of_app, <- Fl, <- app_assoc. f_equal.
+      rewrite bits_of_cons, bits_of_nil, app_nil_r, n8_b8.
+      pose proof (val_bound (a ++ repeat false (5 - length a))) as B.
+      rewrite app_length, repeat_length in B. replace (length a + (5 - length a))%nat with 5%nat in B by lia.
+      change (2 ^ N.of_nat 5) with 32 in B. rewrite N.mod_small by lia.
+      replace 5%nat with (length (a ++ repeat false (5 - length a))) at 1
+        by (rewrite app_length, repeat_length; lia).
+      apply bitsN_val.
+    + unfold a. cbn [length]. lia.
+Qed.
+
+(* ------------------------------------------------------------------ *)
+(* the two regrouping laws, for all byte lists                          *)
+(* ------------------------------------------------------------------ *)
+Theorem regroup_roundtrip : forall d, exists c, convert_bits d 8 5 true = Some c /\ small5 c /\
+  convert_bits c 5 8 false = Some d /\ (length c <= 2 * length d)%nat.
+Proof.
+  intro d. destruct (enc_bits d) as (c & p & C & S & B & P). exists c. split; [exact C|]. split; [exact S|]. split.
+  - rewrite (conv58 c S). cbv zeta. rewrite B, pushes_app, pushes8_bytes, app_nil_r.
+    rewrite pushes_small by (rewrite repeat_length; cbn [length]; lia). cbn [fst snd app].
+    rewrite repeat_length, val_zeros, rev_involutive. change (0 =? 0) with true. cbn [negb]. rewrite orb_false_r.
+    destruct (N.ltb_spec 4 (N.of_nat p)) as [Q|_]; [lia|]. rewrite andb_false_r. reflexivity.
+  - apply (f_equal (@length bool)) in B. rewrite app_length, !bits_of_length, repeat_length in B. lia.
+Qed.
+
+Theorem regroup_back : forall c d, small5 c -> convert_bits c 5 8 false = Some d -> convert_bits d 8 5 true = Some c.
+Proof.
+  intros c d S H. rewrite (conv58 c S) in H. cbv zeta in H.
+  pose proof (pushes_flat 8 ltac:(lia) (bits_of 5 c) [] [] ltac:(cbn; lia)) as Fl.
+  pose proof (pushes_len 8 (bits_of 5 c) [] [] ltac:(cbn; lia)) as L.
+  destruct (pushes 8 ([], []) (bits_of 5 c)) as [acc out] eqn:E.
+  unfold sst, bytes in *. try rewrite E in Fl. try rewrite E in L.
+  unfold flat in Fl. cbn [fst snd rev app] in *. rewrite bits_of_nil in Fl. cbn [app] in Fl.
+  destruct ((0 <? N.of_nat (length acc)) && ((4 <? N.of_nat (length acc)) || negb (val acc =? 0))) eqn:Ck; [discriminate|].
+  inversion H; subst d. clear H.
+  assert (Z : acc = repeat false (length acc) /\ (length acc <= 4)%nat).
+  { destruct acc as [|b acc]; [split; [reflexivity | cbn; lia]|].
+    assert (Hp : 0 <? N.of_nat (length (b :: acc)) = true) by (apply N.ltb_lt; cbn [length]; lia).
+    rewrite Hp in Ck. cbn [andb] in Ck. apply orb_false_iff in Ck as [C1 C2].
+    apply N.ltb_ge in C1. apply negb_false_iff, N.eqb_eq in C2. split; [apply val_zero_inv; exact C2 | lia]. }
+  destruct Z as [Z Q]. set (q := length acc) in *.
+  destruct (enc_bits (rev out)) as (c' & p & C' & S' & B' & P'). rewrite C'. f_equal.
+  assert (Epq : p = q).
+  { pose proof (f_equal (@length bool) Fl) as L1. pose proof (f_equal (@length bool) B') as L2.
+    rewrite Z in L1. rewrite app_length, !bits_of_length, repeat_length in L1, L2. lia. }
+  apply (bits_of_inj 5 ltac:(lia)); [exact S' | exact S |]. rewrite B', <- Fl, Epq. f_equal. symmetry. exact Z.
 Qed.
